@@ -446,7 +446,7 @@ def py_random_scenario(rng, par, n, steps, tag):
 def gen_scenarios(ctx):
     """TLC-generated scenarios (GenMesh, -simulate, seeded)."""
     pars = list(REPLAY_PARAMS) + (REPLAY_PARAMS_THOROUGH if ctx.thorough else [])
-    per = 26 if not ctx.thorough else 150
+    per = 30 if not ctx.thorough else 220
     rng = random.Random(ctx.seed * 7919 + 1)
     jobs = []
     for par in pars:
@@ -658,7 +658,7 @@ def record_violations(ctx, viols, traces, scns, source):
 def run_walks(ctx):
     """Seeded random walks over the whole action alphabet (TestRouterWalk) under several parameter sets."""
     pars = [(4, 2, 5, 2, 1), (2, 1, 3, 1, 0), (4, 3, 5, 2, 1)] + ([(0, 0, 0, 0, 0), (3, 2, 4, 4, 0), (4, 2, 4, 2, 1)] if ctx.thorough else [])
-    walks, steps = (6, 60) if not ctx.thorough else (40, 90)
+    walks, steps = (6, 60) if not ctx.thorough else (60, 90)
 
     def one(k):
         par = pars[k]
